@@ -1208,6 +1208,8 @@ def run(ctx: Ctx):
         instance_sized_state(ctx, env)
         if cname == "SVRPEnv":
             svrp_last_technician(ctx, env, sl, root)
+        if cname == "MTSPEnv":
+            mtsp_agent_counter(ctx, env)
         if cname == "MTVRPEnv":
             open_route_gating(ctx, env, sl, root)
         if cname == "MTVRPEnv":
@@ -1217,6 +1219,31 @@ def run(ctx: Ctx):
                 s_ = env.slot(nm)
                 ctx.fn(s_.fi)
                 units.obligations(ctx, "C01.u", f"{cname}.{nm}", s_.it, s_.fr, s_.where, floor)
+
+
+def mtsp_agent_counter(ctx: Ctx, env: EnvA):
+    """C01.s mTSP: at most `num_agents` sub-tours.  The mask keeps the depot closed once `agent_idx` has reached num_agents - 1,
+    so the counter has to count every return to the depot and nothing else: agent_idx' = agent_idx + [action == 0]."""
+    sl = env.slot("_step")
+    v = sl.cell("agent_idx")
+    ok, why = False, "agent_idx' is not agent_idx + [action == depot]"
+    if isinstance(v, vg.S):
+        p = nf.poly(v)
+        terms = list(p.terms.items())
+        if len(terms) == 2 and all(len(m_) == 1 and m_[0][1] == 1 for m_, _ in terms):
+            atoms = {nf.Poly.ATOMS[m_[0][0]]: c_ for m_, c_ in terms}
+            old = [a for a in atoms if nf.strip(a).op == "cell0" and nf.strip(a).args[1] == "agent_idx"]
+            ind = [a for a in atoms if a not in old]
+            if len(old) == 1 and len(ind) == 1:
+                x = nf.strip(ind[0], True)
+                while x.op == "meth" and x.args[1] in ("long", "int", "float", "to"):
+                    x = nf.strip(x.args[0], True)
+                c = nf.cmpnf(x)
+                at_depot = c is not None and c[1] == "==0" and c[0].const_term() == 0 and vg.cells_of(x) == {"action"}
+                ok = atoms[old[0]] == 1 and atoms[ind[0]] == 1 and at_depot
+                why = f"agent_idx' = {atoms[old[0]]} * agent_idx + {atoms[ind[0]]} * [{vg.show(x, 3)}]: counts exactly the returns to the depot -- {ok}"
+    ctx.ob("C01.s", "MTSPEnv._step:agent_idx:counts-depot-returns", ok, sl.where, why + ("" if ok else " -- the mask's `agents left` test then allows more sub-tours than agents (or fewer)"),
+           construct="MTSPEnv._step:agent_idx:formula")
 
 
 def torchrl_step_on_a_copy(ctx: Ctx):
